@@ -303,7 +303,8 @@ impl FixtureDatabase {
             );
 
             let mut new_modules: HashSet<std::path::PathBuf> = HashSet::new();
-            // Files walked earlier that were marked as plugin files in this iteration
+            // Already indexed files to walk in the next iteration: imported modules that were
+            // never walked, and files marked as plugin files after they were walked
             let mut rewalk: HashSet<std::path::PathBuf> = HashSet::new();
 
             for file_path in &files_to_check {
@@ -364,10 +365,15 @@ impl FixtureDatabase {
                                 }
                             }
 
-                            if !processed_files.contains(&canonical)
-                                && !self.file_cache.contains_key(&canonical)
-                            {
-                                new_modules.insert(canonical);
+                            // Every imported module has its own imports walked: a new
+                            // one after it is analyzed, one that is already indexed (for
+                            // example opened in the editor before the scan) as it is.
+                            if !processed_files.contains(&canonical) {
+                                if self.file_cache.contains_key(&canonical) {
+                                    rewalk.insert(canonical);
+                                } else {
+                                    new_modules.insert(canonical);
+                                }
                             }
                         }
                     }
@@ -399,10 +405,15 @@ impl FixtureDatabase {
                                 }
                             }
 
-                            if !processed_files.contains(&canonical)
-                                && !self.file_cache.contains_key(&canonical)
-                            {
-                                new_modules.insert(canonical);
+                            // Every imported module has its own imports walked: a new
+                            // one after it is analyzed, one that is already indexed (for
+                            // example opened in the editor before the scan) as it is.
+                            if !processed_files.contains(&canonical) {
+                                if self.file_cache.contains_key(&canonical) {
+                                    rewalk.insert(canonical);
+                                } else {
+                                    new_modules.insert(canonical);
+                                }
                             }
                         }
                     }
